@@ -78,16 +78,36 @@ def established(n):
             and any(e.state == S.ESTABLISHED and e.child_sas and e.peer_addr == world.IP1 for e in n.b.ike_sas))
 
 
+class LoopHang(BaseException):
+    pass
+
+
 def run(n, events, label, send_fault=None, budget_ok=True):
+    import signal
     lp = world.Loop(n.B)
     lp.send_fault = send_fault
+
+    def on_alarm(*_):
+        raise LoopHang()
+    nested = signal.getsignal(signal.SIGALRM) not in (signal.SIG_DFL, signal.SIG_IGN, None)
+    if not nested:
+        old = signal.signal(signal.SIGALRM, on_alarm)
+        signal.alarm(30)
     try:
         reached = lp.run(events)
+    except LoopHang:
+        return lp, f'{label}: the loop was busy for more than 30 s without coming back to wait for the next event (wedged)'
     except BaseException as ex:      # noqa
         from symx import core
         if isinstance(ex, core.EngineAbort):
             raise
+        if type(ex).__name__ == 'Hang':
+            raise
         return lp, f'{label}: main_loop terminated with {type(ex).__name__}: {ex}'
+    finally:
+        if not nested:
+            signal.alarm(0)
+            signal.signal(signal.SIGALRM, old)
     if not reached:
         return lp, f'{label}: main_loop returned'
     S = MODS['ikesa'].IkeSa.State
@@ -368,6 +388,56 @@ def h_kernel_event(kind, vary='cut'):
     return ['kernel_event', kind, 'survived']
 
 
+def h_kernel_event_busy(state, event):
+    """the daemon's IKE_SA with the peer waits for the answer to a request of its own (every such state) when a kernel event for it arrives (EXPIRE of
+    one of its CHILD_SAs, soft or hard; ACQUIRE for its peer); then the answer arrives: the loop comes back to wait, no DELETED IKE_SA stays listed,
+    the SAD matches the table, and a new negotiation with the peer still works"""
+    from symx import core
+    eng = core.engine()
+    ik = MODS['ikesa']
+    S = ik.IkeSa.State
+    n = world.Net()
+    a, b = n.establish()
+    # a second CHILD_SA so that rekey / delete of one leaves the other
+    n.pump('B', n.acquire('A', sport=9100, dport=23))
+    with n.B:
+        if state == 'DPD_REQ_SENT':
+            world.ENV.now = b.start_dpd_at + 3600
+            req = b.check_dead_peer_detection_timer()
+        elif state == 'NEW_CHILD_REQ_SENT':
+            req = None
+        elif state == 'REK_CHILD_REQ_SENT':
+            req = b.process_expire(b.child_sas[0].inbound_spi, False)
+        elif state == 'DEL_CHILD_REQ_SENT':
+            req = b.process_expire(b.child_sas[0].inbound_spi, True)
+        elif state == 'REK_IKE_SA_REQ_SENT':
+            world.ENV.now = b.rekey_ike_sa_at + 10
+            req = b.check_rekey_ike_sa_timer()
+        else:
+            world.ENV.now = b.delete_ike_sa_at + 3600
+            req = b.check_rekey_ike_sa_timer()
+    if state == 'NEW_CHILD_REQ_SENT':
+        req = n.acquire('B', sport=23, dport=9200)
+    if req is None or b.state.name != state:
+        return ['n/a', b.state.name]
+    res = n.dispatch('A', req)
+    spi = b.child_sas[-1].inbound_spi
+    ev = {'expire_soft': lambda: world.expire_bytes(spi, False), 'expire_hard': lambda: world.expire_bytes(spi, True),
+          'acquire': lambda: world.acquire_bytes(world.IP2, world.IP1, 2, sport=23, dport=9300)}[event]()
+    peer = Peer(n)
+    events = [{'kind': 'xfrm', 'data': ev}]
+    if res is not None:
+        events.append({'kind': 'udp', 'dst': world.IP2, 'src': str(world.IP1), 'data': res})
+    events += [peer.answer] * 6 + [{'kind': 'tick'}, {'kind': 'control'}]
+    lp, bad = run(n, events, f'kernel {event} while {state}, then the answer')
+    if bad:
+        return {'class': ['kernel_event_busy', state, event], 'violation': bad}
+    bad = world.sad_invariant(n.b, n.B.kernel)
+    if bad:
+        return {'class': ['kernel_event_busy', state, event], 'violation': f'kernel {event} while {state}: ' + '; '.join(bad)}
+    return ['kernel_event_busy', state, event, 'survived']
+
+
 def h_send_fault(exc_name):
     """a transmission failure at an arbitrary sendto of the responder during a legitimate handshake: the loop survives and the
     handshake completes through retransmissions"""
@@ -420,9 +490,16 @@ def build_instances(tier):
     if tier == 'quick':
         for kind in ('acquire_unknown_index', 'acquire_unknown_peer', 'expire_unknown'):
             inst.append(Instance(f'kernel event {kind} vary=type', h_kernel_event, (kind, 'type'), native=nat(h_kernel_event)))
+    for st in BUSY_STATES:
+        for ev in ('expire_soft', 'expire_hard', 'acquire'):
+            inst.append(Instance(f'kernel {ev} while {st}, then the answer', h_kernel_event_busy, (st, ev), native=nat(h_kernel_event_busy),
+                                 must_reach=[('survived', lambda o: o[-1] == 'survived')]))
     for e in ('OSError', 'gaierror', 'PermissionError'):
         inst.append(Instance(f'send fault {e}', h_send_fault, (e,), native=nat(h_send_fault)))
     return inst
+
+
+BUSY_STATES = ('DPD_REQ_SENT', 'NEW_CHILD_REQ_SENT', 'REK_CHILD_REQ_SENT', 'DEL_CHILD_REQ_SENT', 'REK_IKE_SA_REQ_SENT', 'DEL_IKE_SA_REQ_SENT')
 
 
 def _load(shim):
